@@ -67,7 +67,16 @@ func (id ID) ExtractPublicKey() (crypto.PubKey, error) {
 	if code != mhIdentity {
 		return nil, ErrNoPublicKey
 	}
-	return crypto.UnmarshalPublicKey(digest)
+	pk, err := crypto.UnmarshalPublicKey(digest)
+	if err != nil {
+		return nil, err
+	}
+	// The decoders are lenient (non-minimal varints, unknown or repeated protobuf
+	// fields): only the ID derived from the key is an ID of that key.
+	if !id.MatchesPublicKey(pk) {
+		return nil, ErrNonCanonicalPeerID
+	}
+	return pk, nil
 }
 
 // IDFromBytes casts a byte slice to the ID type and validates that
